@@ -114,6 +114,9 @@ func checkAddTable(c *Ctx, add *ssa.Function) {
 		if got == nil && rt.isParam(0) {
 			got = parseTerm("field[" + f + "](param[0])")
 		}
+		if privateCopy(c, tb, add, "TERM-ADD", f, got) {
+			continue
+		}
 		c.cmpTerm("TERM-ADD", f+" from first table", add.Pos(), got, "field["+f+"](param[0])", f+" is the first table's", "the result's "+f, "field["+f+"](param[1])")
 	}
 	aas := partialOf(rt, "AminoAcids")
@@ -395,6 +398,9 @@ func checkCompromise(c *Ctx, cmp *ssa.Function) {
 	c.ok("GUARD", "one success return", succ.Pos(), "a single (table, nil) return")
 	rt := tb.T(succ.Results[0])
 	for _, f := range []string{"StartCodons", "StopCodons"} {
+		if privateCopy(c, tb, cmp, "TERM-COMP", f, partialOf(rt, f)) {
+			continue
+		}
 		c.cmpTerm("TERM-COMP", f+" from first table", cmp.Pos(), partialOf(rt, f), "field["+f+"](param[0])", f+" is the first table's", "the result's "+f, "field["+f+"](param[1])")
 	}
 	aas := partialOf(rt, "AminoAcids")
@@ -638,4 +644,41 @@ func pathCondFromDom(tb *TermBuilder, b, other *ssa.BasicBlock) *Cond {
 		return nil
 	}
 	return pathCond(tb, d, b)
+}
+
+
+// privateCopy: the result's list f is a fresh slice filled by copy(). Decides the obligation when the copy is
+// visibly of the first table's list: held when the slice is sized by that same list, broken when it is sized
+// by the length of a different list (shorter: codons are dropped; longer: empty strings are appended).
+// Returns false when the shape is not this one (the caller's comparison applies).
+func privateCopy(c *Ctx, tb *TermBuilder, fn *ssa.Function, rule, f string, got *Term) bool {
+	if got == nil || got.Op != "makeslice" || got.V == nil || len(got.Args) == 0 {
+		return false
+	}
+	want := "field[" + f + "](param[0])"
+	var src *Term
+	n := 0
+	eachInstr(fn, func(i ssa.Instruction) {
+		cl, ok := i.(*ssa.Call)
+		if !ok || calleeName(cl) != "builtin:copy" || len(cl.Call.Args) != 2 {
+			return
+		}
+		if d := tb.T(cl.Call.Args[0]); d.V == got.V || d.String() == got.String() && d.Op == "makeslice" && d.V == got.V {
+			src = tb.T(cl.Call.Args[1])
+			n++
+		}
+	})
+	if n != 1 || src == nil || src.String() != want {
+		return false
+	}
+	size := got.Args[0].String()
+	switch {
+	case size == "call[builtin:len]("+want+")":
+		c.ok(rule, f+" from first table", fn.Pos(), f+" is a private copy of the first table's list, sized by that list")
+		return true
+	case strings.HasPrefix(size, "call[builtin:len](field[") && strings.HasSuffix(size, "(param[0]))") || strings.HasSuffix(size, "(param[1]))") && strings.HasPrefix(size, "call[builtin:len](field["):
+		c.bad(rule, f+" from first table", fn.Pos(), "the result's "+f+" is copied from the first table's "+f+" into a slice sized by "+short(size)+": when the two lists differ in length the codons are cut short or padded with empty strings")
+		return true
+	}
+	return false
 }
